@@ -384,10 +384,48 @@ DIRECTED = [
      {'b.xml': ISAR % '<enum name="EB"><enum-member name="EB_X" value="1"/><enum-member name="EB_Y" value="3"/></enum>',
       'a.xml': ISAR % '<xi:include href="b.xml"/><struct name="S"><member name="e" type="EB"/><member name="m" type="u8"><dimension size="EB_Y"/></member></struct>'},
      'a.xml', 'usable'),
+    # audit round 5
+    ('isar: array size that divides by zero (D166)', '--isar',
+     {'a.xml': ISAR % '<constant name="K" value="4"/><struct name="S"><member name="a" type="u8"><dimension size="K/(K-4)"/></member></struct>'}, 'a.xml', 'reject'),
+    ('isar: array size that is an unfinished expression (D166)', '--isar',
+     {'a.xml': ISAR % '<constant name="K" value="4"/><struct name="S"><member name="a" type="u8"><dimension size="K +"/></member></struct>'}, 'a.xml', 'reject'),
+    ('isar: array size that is Python code (D166)', '--isar',
+     {'a.xml': ISAR % '<struct name="S"><member name="a" type="u8"><dimension size="__import__(\'os\').getpid() or 3"/></member></struct>'}, 'a.xml', 'reject'),
+    ('patch: static size that divides by zero (D166)', ['--patch', 'a.patch'],
+     {'a.prophy': 'const K = 4;\nstruct S { u8 a[2]; };\n', 'a.patch': 'S static a K/(K-4)\n'}, 'a.prophy', 'reject'),
+    ('isar: array size with a parenthesised product of known constants', '--isar',
+     {'a.xml': ISAR % '<constant name="K" value="4"/><struct name="S"><member name="a" type="u8"><dimension size="(K+1)*2"/></member></struct>'}, 'a.xml', 'usable'),
+    ('isar: constant named encoded_byte_size used as discriminator and size (D173)', '--isar',
+     {'a.xml': ISAR % ('<constant name="encoded_byte_size" value="1"/><union name="U"><member name="a" type="u32" discriminatorValue="encoded_byte_size"/>'
+                       '<member name="b" type="u64" discriminatorValue="2"/></union><struct name="S"><member name="x" type="u8"><dimension size="encoded_byte_size"/></member></struct>')},
+     'a.xml', 'reject'),
+    ('isar: hexadecimal literal ending in e followed by + (one number for a C++ compiler, D175)', '--isar',
+     {'a.xml': ISAR % '<constant name="A" value="0xE+1"/><struct name="S"><member name="x" type="u8"><dimension size="0xFE+1"/></member></struct>'}, 'a.xml', 'reject'),
+    ('isar: the same with blanks', '--isar',
+     {'a.xml': ISAR % '<constant name="A" value="0xE + 1"/><struct name="S"><member name="x" type="u8"><dimension size="0xFE + 1"/></member></struct>'}, 'a.xml', 'usable'),
+    ('struct named like a block of the raw C++ header (D177)', None,
+     {'a.prophy': 'struct part2 { u32 v; u32 w; };\nstruct X { u8 a<>; u8 b; u8 c<>; part2 d; u8 e; };\n'}, 'a.prophy', 'reject'),
+    ('isar: struct named _discriminator used as a union arm (D177)', '--isar',
+     {'a.xml': ISAR % ('<struct name="_discriminator"><member name="a" type="u64"/><member name="b" type="u64"/></struct>'
+                       '<union name="U"><member name="x" type="_discriminator" discriminatorValue="1"/></union>')}, 'a.xml', 'reject'),
+    ('constant written with a digit of another script (D176)', None, {'a.prophy': 'const A = 1\u0663;\nstruct S { u8 x[A]; };\n'}, 'a.prophy', 'reject'),
+    ('constant written with fullwidth digits (D176)', None, {'a.prophy': 'const A = \uff11\uff12;\nstruct S { u8 x[A]; };\n'}, 'a.prophy', 'reject'),
+    ('isar: negative enumerator with an underscore (D176)', '--isar',
+     {'a.xml': ISAR % '<enum name="E"><enum-member name="E_A" value="-1_0"/></enum>'}, 'a.xml', 'reject'),
+    ('isar: negative binary enumerator (D176)', '--isar',
+     {'a.xml': ISAR % '<enum name="E"><enum-member name="E_A" value="-0b11"/></enum>'}, 'a.xml', 'reject'),
+    ('isar: negative enumerator (kept: two\'s complement)', '--isar',
+     {'a.xml': ISAR % '<enum name="E"><enum-member name="E_A" value="-1"/><enum-member name="E_B" value="-0x10"/></enum><struct name="S"><member name="e" type="E"/></struct>'},
+     'a.xml', 'usable'),
 ]
 
 
 RUNTIME_ILLEGAL = [
+    ('discriminator 1.5', ('union', [('a', 'prophy.u8', 0), ('b', 'prophy.u16', 1.5)])),
+    ('discriminator 1.0', ('union', [('a', 'prophy.u8', 0), ('b', 'prophy.u16', 1.0)])),
+    ('array shift 0.5', ('struct', [('S', [('n', 'prophy.u8'), ('a', 'prophy.array(prophy.u8, bound="n", shift=0.5)')])])),
+    ('bytes shift 2.5', ('struct', [('S', [('n', 'prophy.u8'), ('a', 'prophy.bytes(bound="n", shift=2.5)')])])),
+    ('array size 2.0', ('struct', [('S', [('a', 'prophy.array(prophy.u8, size=2.0)')])])),
     ('duplicate field names', ('struct', [('S', [('a', 'prophy.u8'), ('a', 'prophy.u16')])])),
     ('duplicate arm names', ('union', [('a', 'prophy.u8', 1), ('a', 'prophy.u16', 2)])),
     ('duplicate discriminators', ('union', [('a', 'prophy.u8', 1), ('b', 'prophy.u16', 1)])),
